@@ -13,6 +13,8 @@ ENGINES = [
      'kind_free_text': 'native driver enumerating its configuration universe under ASan/UBSan with exact-size buffers; abort-and-restart attribution through a breadcrumb file'},
     {'name': 'E3-vomp-schedule-explorer', 'path': 'native/vomp.c, native/c07drv.c, vf/props/c07.py', 'serves_properties': ['C07'],
      'kind_free_text': 'own GOMP_*/__tsan_* runtime with ucontext coroutines; CHESS-style iterative preemption bounding with replayable choice sequences; virtual multiprocessing pool with exhaustive completion orders'},
+    {'name': 'E2-history-explorer', 'path': 'vf/props/c13.py, c14.py, c15.py, c18.py, c20.py (check_histories)', 'serves_properties': ['C13', 'C14'],
+     'kind_free_text': 'breadth-first enumeration of operation sequences; each prefix is replayed on a fresh live object; differential oracle = fresh-object / reference answer at every step'},
 ]
 
 PENDING = 'check not built yet in this round (planned, see DESIGN.md section 4); not claimed until it exists and is silent on the unchanged tree'
@@ -98,6 +100,18 @@ CHECKS['C19'] = (E1, 'E1-input-config-explorer',
     'pointwise monotonicity on all index pairs, zero distance -> maximal similarity, range [0,1] under the default scale, equality with the documented closed form for explicit parameters, no NaN, and re-application with the reported parameters.',
     'Trusted: math.exp transcription of the docstring formulas. Explicitly requested quantile targets that are unsatisfiable (derived scale not finite and positive) are counted, not judged.',
     'DESIGN.md section 4 C19')
+
+CHECKS['C13'] = (E1 + '; ' + E2, 'E1-input-config-explorer + E2-history-explorer',
+    'Every (query len 1..3, series len 1..5 (6)) pair over a 3-letter alphabet x 3 penalties x 48 iterator argument sets x both engines (ndim 1-2): matching function == brute force over all start points of the reference DTW / len(query); '
+    'best match and every k-best match: path is a valid warping path over its segment whose cost realises the value; iterator: distinct ends, sorted values, length limits, no overlap; engines agree. '
+    'Histories up to depth 3 (4) over {align, matching_function, best_match, two interleaved iterators, reset} must answer like a fresh object.',
+    'Trusted: vf/oracles.py DTW. After the first match whose equally optimal path differs between engines later masking may differ (not judged).',
+    'DESIGN.md section 4 C13')
+CHECKS['C14'] = (E1 + '; ' + E2, 'E1-input-config-explorer + E2-history-explorer',
+    'Every candidate list of 1..4 (5) series drawn with repetition from tie-rich pools (so in every order, with duplicates) x window x penalty x psi x every class of max_dist/max_value threshold x use_lb x engine x every k in 1..N+1 and None: '
+    'the answer must be exactly the sorted exhaustive reference distances within the threshold (indices up to ties, right count). Every history up to depth 3 (4) over {kbest_matches(1|2|3|None), best_match, align(2), kbest_matches_fast(2), reset} is judged the same way at every step.',
+    'Trusted: vf/oracles.py DTW; thresholds lie in gaps between distinct distances.',
+    'DESIGN.md section 4 C14')
 
 ALL = ['C%02d' % i for i in range(1, 21)]
 NOT_APPLICABLE = {p: PENDING for p in ALL if p not in CHECKS}
